@@ -86,6 +86,8 @@ func (fg *FnGen) describeCall(c *ssa.CallCommon) callDesc {
 					}
 				case *types.Basic:
 					d.short = d.full + ":" + t.Name()
+				default:
+					d.short = d.full + ":other"
 				}
 			}
 		}
@@ -317,7 +319,11 @@ func (fg *FnGen) dispatchCall(fr *Frame, site ssa.Instruction, c *ssa.CallCommon
 		// effects list, "function <pattern>": the call leaves the heap unchanged and its results are a function of the
 		// callee value and the arguments (two calls with equal arguments give equal results) — an assumption, listed
 		fg.g.useTrusted("effects list (assumed to be a deterministic function of its arguments, heap unchanged): " + d.short)
-		uargs := append([]*Term{fg.val(fr, c.Value)}, args...)
+		uargs := args
+		if d.static == nil {
+			// a call through a function value: the value is part of the function's identity
+			uargs = append([]*Term{fg.val(fr, c.Value)}, args...)
+		}
 		var res []*Term
 		for i := 0; i < d.sig.Results().Len(); i++ {
 			srt := fg.g.ti.sortOf(d.sig.Results().At(i).Type())
